@@ -47,7 +47,7 @@ class Contract:
                  modifies=(), loops=None, inline=False, guarded_by=None, returns_kind=None,
                  ghost=None, props=(), pure=False, locals=None, trusted=False, note="",
                  allow_raise=(), fresh_result=False, setup=None, verify=True, assume_after=None, no_self_inline=False, variant=None,
-                 lemma_src=None, lemma_module=None, inline_callees=None):
+                 lemma_src=None, lemma_module=None, inline_callees=None, effect=None):
         self.file = file
         self.qualname = qualname
         self.types = dict(types or {})
@@ -76,6 +76,7 @@ class Contract:
         # {callee qualname: {loop ordinal: LoopSpec}}: callees inlined (mechanically, from their real source) at this
         # function's call sites instead of being replaced by their contracts, with call-site specific loop specs
         self.inline_callees = dict(inline_callees or {})
+        self.effect = effect     # trusted contracts only: callable(eng, st, env) updating ghost (non-heap) state at call sites
         # {local variable: clause}: ASSUMED right after each assignment to that local (listed as an
         # assumption in evidence), e.g. 'a fresh uuid never collides with an existing study name'
         self.assume_after = dict(assume_after or {})
